@@ -79,6 +79,7 @@ func c12Run(f failer, cfg world.Cfg, c c12Case) {
 		for _, s := range steps {
 			res := base.Do(s)
 			if res.Hang != nil {
+				busyIsInconclusive(f, res.Hang)
 				failf(f, "building the tree: %s: %s", s, res.Hang.Detail)
 			}
 			if res.Err != nil {
@@ -179,6 +180,7 @@ func c12Run(f failer, cfg world.Cfg, c c12Case) {
 		r := fresh()
 		res := r.Do(hist.Step{Op: "removeall", Path: d})
 		if res.Hang != nil {
+			busyIsInconclusive(f, res.Hang)
 			failf(f, "RemoveAll(%q): %s", d, res.Hang.Detail)
 		}
 		if res.Err != nil {
@@ -198,6 +200,7 @@ func c12Run(f failer, cfg world.Cfg, c c12Case) {
 			r := fresh()
 			res := r.Do(hist.Step{Op: "rename", Path: d, Path2: dst})
 			if res.Hang != nil {
+				busyIsInconclusive(f, res.Hang)
 				failf(f, "Rename(%q,%q): %s", d, dst, res.Hang.Detail)
 			}
 			// reference outcome
